@@ -4,7 +4,7 @@
       internal/server/message/message.go :
         HandleSearch / SearchSelectedMailbox (argument handling only: CHARSET, criteria string),
         evaluateSearchCriteria, parseSearchTokens, matchesSearchCriteria,
-        evaluateTokens, isSequenceSet, matchesSequenceSet, matchesUIDSet,
+        evaluateTokens (isSequenceSet, matchesSequenceSet, matchesUIDSet: Model/SeqSet.v),
         unquote, requiresArgument, matchesDate, parseIMAPDate
       (the keys that read the message text are in Model/SearchText.v)
       internal/server/uid/uid.go : handleUIDSearch   -- delegates to message.SearchSelectedMailbox
@@ -14,6 +14,7 @@
     second OR key) no branch of the evaluator produces it any more; the type is kept.  No proofs in this file. *)
 From Coq Require Import String Ascii List Bool Arith NArith ZArith.
 From Raven Require Import Base.GoStr.
+From Raven Require Model.SeqSet.
 Import ListNotations.
 Local Open Scope Z_scope.
 
@@ -26,7 +27,9 @@ Definition date := (Z * Z * Z)%type.
 
 (** message.messageInfo, plus the text parser.ReconstructMessage... returns for it *)
 Record msg := mk_msg {
-  m_seq : Z; m_uid : Z; m_flags : str; m_text : str; m_idate : date }.
+  m_seq : Z; m_uid : Z; m_flags : str; m_text : str; m_idate : date;
+  m_maxseq : Z;   (* messageInfo.maxSeqNum: highest sequence number in the mailbox *)
+  m_maxuid : Z }. (* messageInfo.maxUID: highest UID in the mailbox *)
 
 Definition dq : ascii := """"%char.
 Definition sp : ascii := " "%char.
@@ -54,46 +57,9 @@ Fixpoint pst (s : str) (cur : str) (inq : bool) (inp : Z) : list str :=
   end.
 Definition parse_search_tokens (criteria : str) : list str := pst criteria [] false 0.
 
-(** ** strconv.Atoi with the error dropped ([v, _ := strconv.Atoi(s)]):
-    0 on a syntax error, the nearest int64 on a range error *)
-Definition atoi_val (s : str) : Z :=
-  match atoi s with
-  | Some v => v
-  | None =>
-      let '(neg, d) :=
-        match s with
-        | c :: s' => if Ascii.eqb c "-"%char then (true, s')
-                     else if Ascii.eqb c "+"%char then (false, s') else (false, s)
-        | [] => (false, [])
-        end in
-      match d with
-      | [] => 0
-      | _ => if forallb is_digit d then (if neg then - (max_int64 + 1) else max_int64) else 0
-      end
-  end.
-
-(** ** isSequenceSet *)
-Definition is_sequence_set (token : str) : bool :=
-  if str_eqb token [star] then true
-  else forallb (fun ch => Ascii.eqb ch colon || Ascii.eqb ch star || is_digit ch) token
-       && match token with
-          | c :: _ => is_digit c || Ascii.eqb c star
-          | [] => false
-          end.
-
-(** ** matchesSequenceSet / matchesUIDSet *)
-Definition matches_sequence_set (n : Z) (set : str) : bool :=
-  if negb (contains set [colon]) && negb (str_eqb set [star]) then
-    match atoi set with Some v => v =? n | None => false end
-  else if str_eqb set [star] then true
-  else
-    match split_byte set colon with
-    | [p0; p1] =>
-        let start := if str_eqb p0 [star] then n else atoi_val p0 in
-        let end_ := if str_eqb p1 [star] then 999999 else atoi_val p1 in
-        (start <=? n) && (n <=? end_)
-    | _ => false
-    end.
+(** ** isSequenceSet / matchesSequenceSet / matchesUIDSet: since fix 32751d9 the
+    set matcher is the ONE definition of Model/SeqSet.v (C09):
+    [Model.SeqSet.is_sequence_set], [Model.SeqSet.matches_sequence_set num set largest] *)
 
 (** ** unquote *)
 Definition unquote (s : str) : str :=
@@ -301,7 +267,8 @@ Fixpoint eval_loop (fuel : nat) (tokens : list str) {struct fuel} : option bool 
       let token := to_upper t in
       (* parenthesised list: one token; every key of the list must match *)
       if is_group token then seqk (eval_loop fu (parse_search_tokens (group_inner t))) (eval_loop fu rest)
-      else if is_sequence_set token then andk (matches_sequence_set (m_seq m) token) (eval_loop fu rest)
+      else if Model.SeqSet.is_sequence_set token
+      then andk (Model.SeqSet.matches_sequence_set (m_seq m) token (m_maxseq m)) (eval_loop fu rest)
       else
         match kw_of token with
         | Some KwALL => eval_loop fu rest
@@ -369,7 +336,7 @@ Fixpoint eval_loop (fuel : nat) (tokens : list str) {struct fuel} : option bool 
         | Some KwUID =>
             match rest with
             | [] => Some false
-            | a :: rest1 => andk (matches_sequence_set (m_uid m) a) (eval_loop fu rest1)
+            | a :: rest1 => andk (Model.SeqSet.matches_sequence_set (m_uid m) a (m_maxuid m)) (eval_loop fu rest1)
             end
         | Some KwBEFORE =>
             match rest with [] => Some false
@@ -431,6 +398,12 @@ Definition evaluate_search_criteria (T : text_ops) (msgs : list msg) (criteria :
     of sequence numbers. *)
 Inductive reply := RBad | RNo | ROk (l : list Z) | RPanic.
 
+(** [for i := range messages { messages[i].maxSeqNum = len(messages); messages[i].maxUID = messages[len-1].uid }] *)
+Definition fill_max (msgs : list msg) : list msg :=
+  let n := Z.of_nat (length msgs) in
+  let mu := m_uid (last msgs (mk_msg 0 0 [] [] (0, 0, 0) 0 0)) in
+  map (fun m => mk_msg (m_seq m) (m_uid m) (m_flags m) (m_text m) (m_idate m) n mu) msgs.
+
 Definition search_selected (T : text_ops) (args : list str) (by_uid : bool) (msgs : list msg) : reply :=
   if (length args <? 1)%nat then RBad
   else
@@ -440,7 +413,7 @@ Definition search_selected (T : text_ops) (args : list str) (by_uid : bool) (msg
     if with_charset && negb (str_eqb charset (S_ "US-ASCII")) && negb (str_eqb charset (S_ "UTF-8")) then RNo
     else if (length args <=? start)%nat then RBad
     else
-      match evaluate_search_criteria T msgs (join (skipn start args) [sp]) with
+      match evaluate_search_criteria T (fill_max msgs) (join (skipn start args) [sp]) with
       | None => RPanic
       | Some l => ROk (map (if by_uid then m_uid else m_seq) l)
       end.
